@@ -29,6 +29,19 @@ CHECKS = {
              'modelled; ciphertext length multiple of 16 and 16-byte IV are hypotheses (as in the property).',
         technique='Lean 4 refinement proof + model/implementation correspondence',
         design='§4 C02'),
+    'C11': dict(
+        text='Theorems: load(serialize t) = t for every well-formed value (all six signature types, any field values, '
+             '<= 64 info records, any chunk records) hence both round-trip directions; exhaustive kernel-checked facts '
+             'for the two bit-packed 16-bit words; tamper theorems with SHA-256 as an uninterpreted function: any change '
+             'inside the info block fails with the hash error or exhibits a collision; any replacement of the chunk-record '
+             'area fails, or leaves every covered record equal, or exhibits a collision.  Tied to TitleMetadataReader by '
+             'differential execution on TMDs from an independent 3dbrew-layout builder, a single-bit/byte fault stream '
+             'and constructed objects.',
+        note=COMMON_NOTE + 'SHA-256 is a parameter; "well-formed TMD bytes" = serialisation of a well-formed value (WFv); '
+             'struct.pack / int.to_bytes semantics modelled; category-list decomposition is checked (all 65536 words in '
+             'the thorough tier) but not modelled.',
+        technique='Lean 4 round-trip + tamper-resistance proof (hash as parameter) + model/implementation correspondence',
+        design='§4 C11'),
     'C12': dict(
         text='Coupling theorems: under every interleaving of seek/read/write the underlying file is the CTR encryption of '
              'the logical plaintext and every call returns what the plaintext file returns (full strength over windows; '
